@@ -56,7 +56,7 @@ def plan(tier, seed):
                 for part in ("both", "free", "prescribed"):
                     for rhs in ("v", "blk", "cv", "blkscaled"):
                         cases.append({"mod": "SystemOfEquations", "cls": cls, "storage": st, "part": part, "rhs": rhs, "r": r})
-        for cls in ("spd", "sym", "gen", "hpd", "csym", "cgen", "fe2"):
+        for cls in ("spd", "sym", "gen", "hpd", "herm", "csym", "cgen", "fe2"):
             for st in ("dense", "csc"):
                 for part in ("all", "some-prescribed"):
                     cases.append({"mod": "StaticCondensation", "cls": cls, "storage": st, "part": part, "r": r})
@@ -354,7 +354,18 @@ def run_sc(case, ctx, rng):
         ctx.count("sc_negative_index_sets")
     mi = np.asarray(mi_arg) % n        # the order given is the order of the condensed matrix
     fi = np.asarray(fi_arg) % n
-    m = pym.StaticCondensation(sA, pym.Signal("Ared"), main=mi_arg, free=fi_arg)
+    # keywords are handed on to the inner LinSolve: flags given truthfully for the class of the matrix
+    kwf = {}
+    if rng.random() < 0.5:
+        if case["cls"] in ("hpd", "herm"):
+            kwf["hermitian"] = True
+        elif case["cls"] in ("spd", "sym", "fe2"):
+            kwf[str(rng.choice(["symmetric", "hermitian"]))] = True
+        elif case["cls"] == "csym":
+            kwf["symmetric"] = True
+        if kwf:
+            ctx.count("sc_with_truthful_flags")
+    m = pym.StaticCondensation(sA, pym.Signal("Ared"), main=mi_arg, free=fi_arg, **kwf)
     with warnings.catch_warnings():
         warnings.simplefilter("ignore")
         m.response()
